@@ -61,9 +61,10 @@ def derived_hit(rng, tree):
     """a path that resolves, possibly through a fan-out / predicate with a single match"""
     poss = [p for p, v in X.positions(tree) if p]
     if not poss:
-        return "zz"
+        return "zz", None
     p = rng.choice(poss)
     xp = X.render(rng, tree, p)
+    exact = list(p)
     if rng.random() < 0.5:
         # replace one index step by [*]
         import re
@@ -71,7 +72,8 @@ def derived_hit(rng, tree):
         if idx:
             m = rng.choice(idx)
             xp = xp[: m.start()] + "[*]" + xp[m.end():]
-    return xp
+            exact = None
+    return xp, exact
 
 
 def derived_pred_hit(rng, tree):
@@ -130,6 +132,8 @@ def check_lookup(c):
         return {"item_access_raised": item[1]}
     if c.get("expect_hit") and item[0] == "err":
         return {"path_resolves_but_item_access_raised": item[1]}
+    if c.get("hit_pos") is not None and item[1] is not X.get_at(o, c["hit_pos"]):
+        return {"path_resolves_to_another_value": repr(item[1])[:200], "want": repr(X.get_at(o, c["hit_pos"]))[:200]}
     if xp.startswith("?") and item[0] == "err":
         return {"qmark_item_access_raised": item[1]}
     for d in ("DFLT", None):
@@ -169,6 +173,9 @@ def enc_diff(a, b):
 
 
 def shrink_failure(evaluator, case):
+    if case.get("expect_hit"):
+        return case  # the path was derived from this very tree: a smaller tree would fail for another reason
+
     def ok(c):
         return isinstance(c.get("tree"), (dict, list)) and c.get("mode") in ("n0", "wrap") and isinstance(c.get("xp"), str) \
             and not in_known(c) and check_lookup(c) is not None
@@ -198,8 +205,15 @@ def run(ctx):
         mode = rng.choice(["n0", "wrap"])
         for _ in range(4):
             r = rng.random()
-            xp = soup(rng) if r < 0.45 else (derived_miss(rng, t) if r < 0.8 else derived_hit(rng, t))
-            cases.append({"tree": t, "mode": mode, "xp": xp})
+            if r < 0.8:
+                xp = soup(rng) if r < 0.45 else derived_miss(rng, t)
+                cases.append({"tree": t, "mode": mode, "xp": xp})
+            else:
+                xp, exact = derived_hit(rng, t)
+                cases.append({"tree": t, "mode": mode, "xp": xp})
+                if exact is not None:
+                    # a spelling of a real position: the lookup returns that very node
+                    cases[-1].update(expect_hit=True, hit_pos=exact)
         ph = derived_pred_hit(rng, t) if isinstance(t, dict) else None
         if ph:
             cases.append({"tree": t, "mode": mode, "xp": ph, "expect_hit": True})
